@@ -327,3 +327,25 @@ def _squeeze(self):
         return g(tuple(full))
     return ND.fresh(tuple(shape[k] for k in keep), get, self.dtype)
 ND.squeeze = _squeeze
+
+
+def _nd_pow(self, k):
+    g = self.snapshot()
+    if isinstance(k, int) and k >= 0:
+        def f(idx):
+            r = z3.RealVal(1)
+            for _ in range(k):
+                r = r * g(idx)
+            return r
+        return ND.fresh(self.shape, f, self.dtype)
+    if k == 0.5:
+        from .symex import SQRT
+        return ND.fresh(self.shape, lambda idx: SQRT(g(idx)), self.dtype)
+    from .symex import Unsupported
+    raise Unsupported('ND ** %r' % (k,))
+ND.__pow__ = _nd_pow
+
+
+def _nd_truediv(self, o):
+    return self._bin(o, lambda a, b: a / b)
+ND.__truediv__ = _nd_truediv
